@@ -9,7 +9,7 @@ META = {
             'C15-b: decorated templates (id/class/attributes/text, multi-line text) with a symbolic indent string and payload.',
     'bounds': {
         'quick': 'skeletons of <=5 items x haml/pug/slim, repeat counts 1..3; chains of 6 elements over every sequence of {>, +, ^, ^^, ^^^} with '
-                 'self-closed leaves; 18 decorated templates x 3 syntaxes, indent = any '
+                 'self-closed leaves; 20 decorated templates x 3 syntaxes, indent = any '
                  'string of 1..2 spaces/tabs, payload 1..2 chars',
         'thorough': 'skeletons of <=6 items; indent 0..3 chars',
     },
@@ -211,6 +211,9 @@ DECO = [
     # three and more classes, one-letter names in the middle
     [N('ex', None, ['a', 'b', 'c'])],
     [N('div', 'i', ['col', 's', 'm', 'wide'], [], None, [N('ey', None, ['x', 'y', 'z', 'w'], [('t', 'QZ1')])])],
+    # more than eight classes; expression-valued attributes
+    [N('ex', None, ['c%d' % i for i in range(11)], [], None, [N('div', None, ['d%d' % i for i in range(12)])])],
+    [N('ex', None, [], [('t', '{x.y}'), ('u', 'QZ1')], None, [N('ey', None, [], [('v', '{z}')])])],
 ]
 
 
@@ -262,6 +265,8 @@ def deco_expect(nodes, syntax, depth, ind, payload, out, first):
                     out.append(a + S['boolval'])
                 elif v is None:
                     out.append(a + '=""')
+                elif v[:1] == '{' and v[-1:] == '}':
+                    out.append(a + '=' + v)                 # expression value: braces instead of quotes
                 else:
                     out.append(a + '="')
                     out.append(payload if v == 'QZ1' else v)
